@@ -51,7 +51,7 @@ package types
 // C02: "no image has rows" (the test FlushUndoLog uses to skip writing an undo log). i stands for an
 // arbitrary index.
 //@ func (RecordImages).IsEmptyImage
-//@   prop C02
+//@   prop C02 C01
 //@   let i := some(int, "i")
 //@   loop 1 invariant index: rangeindex1 >= -1
 //@   loop 1 invariant none-so-far: 0 <= i && i <= rangeindex1 && i < len(rs) && rs[i] != nil ==> len(rs[i].Rows) == 0
